@@ -188,6 +188,9 @@ func (c *Ctx) indexDischarge(fn *ssa.Function, at ssa.Instruction, x, idx ssa.Va
 	if isLiteralArrayAccess(x, idx) {
 		return "literal array, constant index", true
 	}
+	if s, _, ok := stringRangeIndex(idx); ok && c.key(s, nil) == c.key(x, nil) {
+		return "x[i] with i the offset of a range-over-string loop on x", true
+	}
 	// a fixed-size array (or a pointer to one, e.g. a package-level table) indexed under explicit bounds:
 	// 0 ≤ idx (by a fact or by construction) and idx < N / idx ≤ N-1 for the array length N
 	if at := arrayOf(x.Type()); at != nil {
@@ -352,7 +355,46 @@ func (c *Ctx) nonNegative(v ssa.Value, atoms []Atom, seen map[ssa.Value]bool) bo
 			}
 		}
 	case *ssa.Call:
-		if bi, ok := x.Call.Value.(*ssa.Builtin); ok && (bi.Name() == "len" || bi.Name() == "cap") {
+		if bi, ok := x.Call.Value.(*ssa.Builtin); ok && (bi.Name() == "len" || bi.Name() == "cap" || bi.Name() == "copy") {
+			return true
+		}
+	case *ssa.Extract:
+		if _, ok := decodeWidth(x); ok {
+			return true
+		}
+	}
+	return false
+}
+
+// decodeWidth: v is the width result of one of the utf8 decoding functions; returns the buffer decoded.
+// Contract (unicode/utf8): 0 ≤ width ≤ len(buffer), and width ≥ 1 when the buffer is not empty.
+func decodeWidth(v ssa.Value) (ssa.Value, bool) {
+	ex, ok := v.(*ssa.Extract)
+	if !ok || ex.Index != 1 {
+		return nil, false
+	}
+	call, ok := ex.Tuple.(*ssa.Call)
+	if !ok || len(call.Call.Args) != 1 {
+		return nil, false
+	}
+	switch calleeFullName(call) {
+	case "unicode/utf8.DecodeRune", "unicode/utf8.DecodeRuneInString", "unicode/utf8.DecodeLastRune", "unicode/utf8.DecodeLastRuneInString":
+		return call.Call.Args[0], true
+	}
+	return nil, false
+}
+
+// withinLen: 0 ≤ v ≤ len(x) by the facts in force (v < len(x), v <= len(x), v == len(x)) and construction.
+func (c *Ctx) withinLen(v, x ssa.Value, atoms []Atom) bool {
+	if !c.nonNegative(v, atoms, map[ssa.Value]bool{}) {
+		return false
+	}
+	vk, lenK := c.key(v, nil), "len("+c.key(x, nil)+")"
+	for _, a := range atoms {
+		if a.Kind == "cmp" && a.Subj == vk && a.Val == lenK && (a.Op == "<" || a.Op == "<=" || a.Op == "==") {
+			return true
+		}
+		if a.Kind == "cmp" && a.Subj == lenK && a.Val == vk && (a.Op == ">" || a.Op == ">=" || a.Op == "==") {
 			return true
 		}
 	}
@@ -449,7 +491,43 @@ func (c *Ctx) sliceDischarge(x ssa.Value, low, high ssa.Value, atoms []Atom) (st
 	}
 	lo, _ := c.lenFactsFor(x, atoms)
 	lowC, highRel := int64(0), int64(-1)
+	// x[:i] / x[i:] with i the byte offset of `for i := range x` over the same string: 0 ≤ i < len(x)
+	if high != nil && low == nil {
+		if s, _, ok := stringRangeIndex(high); ok && c.key(s, nil) == c.key(x, nil) {
+			return "x[:i] with i the offset of a range-over-string loop on x", true
+		}
+	}
+	if low != nil && high == nil {
+		if s, _, ok := stringRangeIndex(low); ok && c.key(s, nil) == c.key(x, nil) {
+			return "x[i:] with i the offset of a range-over-string loop on x", true
+		}
+	}
 	if low != nil {
+		if _, isC := constIntVal(low); !isC {
+			// x[i:] and x[i:i+w] with 0 ≤ i ≤ len(x) by the facts in force, w the width of decoding x[i:]
+			if !c.withinLen(low, x, atoms) {
+				return "", false
+			}
+			if high == nil {
+				return "x[i:] with 0 ≤ i ≤ len(x) by a dominating bound", true
+			}
+			if bo, ok := high.(*ssa.BinOp); ok && bo.Op == token.ADD {
+				for _, pair := range [][2]ssa.Value{{bo.X, bo.Y}, {bo.Y, bo.X}} {
+					if c.key(pair[0], nil) != c.key(low, nil) {
+						continue
+					}
+					if buf, ok := decodeWidth(pair[1]); ok {
+						if ct, ok := buf.(*ssa.ChangeType); ok {
+							buf = ct.X
+						}
+						if sl, ok := buf.(*ssa.Slice); ok && sl.High == nil && sl.Low != nil && c.key(sl.X, nil) == c.key(x, nil) && c.key(sl.Low, nil) == c.key(low, nil) {
+							return "x[i:i+w] where w is the width utf8 decoded from x[i:] (0 ≤ w ≤ len(x)-i)", true
+						}
+					}
+				}
+			}
+			return "", false
+		}
 		n, ok := constIntVal(low)
 		if !ok || n < 0 {
 			return "", false
@@ -472,12 +550,11 @@ func (c *Ctx) sliceDischarge(x ssa.Value, low, high ssa.Value, atoms []Atom) (st
 		}
 		return "", false
 	}
-	if bo, ok := high.(*ssa.BinOp); ok && bo.Op == token.SUB {
-		if n, ok := constIntVal(bo.Y); ok {
-			if call, ok := bo.X.(*ssa.Call); ok {
-				if bi, ok := call.Call.Value.(*ssa.Builtin); ok && bi.Name() == "len" && c.key(call.Call.Args[0], nil) == c.key(x, nil) {
-					highRel = n
-				}
+	if base, off := c.linear(high); off <= 0 {
+		// len(x) - n, possibly written in steps ((len(x) - 2) + 1)
+		if call, ok := base.(*ssa.Call); ok {
+			if bi, ok := call.Call.Value.(*ssa.Builtin); ok && bi.Name() == "len" && c.key(call.Call.Args[0], nil) == c.key(x, nil) {
+				highRel = -off
 			}
 		}
 	}
@@ -752,6 +829,9 @@ func runPanicRules(c *Ctx, r *Report, reach map[*ssa.Function]bool, extra []pani
 				}
 				if !ok {
 					by, ok = c.liftDischarge(r, site, extra, 0)
+				}
+				if !ok {
+					by, ok = c.mergeDischarge(r, site, extra)
 				}
 				if ok {
 					if strings.HasPrefix(by, "ASSUMED:") {
@@ -1232,4 +1312,55 @@ func (c *Ctx) nonNilDischarge(at ssa.Instruction, recv ssa.Value) (string, bool)
 		}
 	}
 	return "", false
+}
+
+// mergeDischarge: the site lies after a merge of several branches (a switch whose cases only select, an
+// if/else that both fall through): no single branch dominates it, but the site is safe if it is safe
+// under the facts of every incoming edge of the nearest merge block. Only facts about values that cannot
+// change in between (no struct fields) are used.
+func (c *Ctx) mergeDischarge(r *Report, site *panicSite, extra []panicDischarger) (string, bool) {
+	b := site.in.Block()
+	var m *ssa.BasicBlock
+	for d := b; d != nil; d = d.Idom() {
+		if len(d.Preds) >= 2 {
+			// not a loop header: no predecessor is dominated by d
+			loop := false
+			for _, p := range d.Preds {
+				if p == d || d.Dominates(p) {
+					loop = true
+				}
+			}
+			if !loop {
+				m = d
+				break
+			}
+			return "", false
+		}
+	}
+	if m == nil || len(m.Preds) > 8 {
+		return "", false
+	}
+	stable := func(atoms []Atom) []Atom {
+		var out []Atom
+		for _, a := range atoms {
+			if len(c.fieldsInKey(site.fn, a.Subj)) == 0 && !strings.Contains(a.Subj, "local:") && !strings.Contains(a.Val, "local:") {
+				out = append(out, a)
+			}
+		}
+		return out
+	}
+	// facts established between the merge block and the site
+	var after []Atom
+	for _, f := range c.domFacts(b) {
+		if f.At.Block() == m || m.Dominates(f.At.Block()) {
+			after = append(after, c.expand(c.atoms(f.Cond, f.Pol, nil), nil)...)
+		}
+	}
+	for _, p := range m.Preds {
+		atoms := append(stable(c.edgeAtomsExpanded(p, m)), stable(after)...)
+		if _, ok := c.tryDischarge(r, site, atoms, extra); !ok {
+			return "", false
+		}
+	}
+	return fmt.Sprintf("holds on each of the %d branches that merge before this point", len(m.Preds)), true
 }
